@@ -287,6 +287,10 @@ private:
     XercesParserLiaison& m_liaison; XalanDocument* m_doc; XalanDOMString m_uri;
 };
 
+// The application has already asked the liaison for a wrapper of the same DOM with the liaison's defaults (for an XPath query, say)
+// before it builds the thread-safe parsed source: a legal sequence, toggled by the plan.
+inline bool& preWrapToggle() { static bool b = false; return b; }
+
 // build a pre-parsed source in the requested form; returns false (holder.status != 0) when parsing failed
 inline bool makeSource(XEnv& env, const std::string& form, const std::string& docBytes, const SrcFault& f, SourceHolder& h, const std::string& callerSysId = std::string(), const std::string& callerUrl = std::string()) {
     xercesc::MemoryManager& mm = env.manager();
@@ -306,6 +310,7 @@ inline bool makeSource(XEnv& env, const std::string& form, const std::string& do
             if (eh.failed || !h.domParser->getDocument()) { h.status = -1; h.err = eh.msg.empty() ? "parse failed" : eh.msg; }
             else {
                 h.xLiaison.reset(new XercesParserLiaison(mm)); h.xSupport.reset(new XercesDOMSupport(*h.xLiaison));
+                if (preWrapToggle()) (void)h.xLiaison->createDocument(h.domParser->getDocument());
                 if (form == "wrapper-lazy") { h.lazyWrapper.reset(new LazyWrapperParsedSource(h.domParser->getDocument(), *h.xLiaison, xs(sysId, mm), mm)); h.ps = h.lazyWrapper.get(); }
                 else { h.wrapper.reset(new XercesDOMWrapperParsedSource(h.domParser->getDocument(), *h.xLiaison, *h.xSupport, xs(sysId, mm), mm)); h.ps = h.wrapper.get(); }
             }
